@@ -109,6 +109,47 @@ def run(ctx, widen=False):
                     for drop in (1, 2):
                         ctx.check("truncation", {"closed": closed, "drop": drop})
                     progs.append(closed); progs.append(closed[:-2])
+    # --- programs with `@` (function definitions / references): the hypothesis `atOK` of parse_append_closers is evaluated
+    # by the model on each program; where it holds, the real parser must give the same tree with every prefix of the
+    # pending closers appended; where it does not, the program is run too and the outcome only counted
+    B = list("@f[(λ|:;])1*")
+    atp = []
+    for L in range(1, 6 if thorough else 5):
+        for t in itertools.product(B, repeat=L):
+            if "@" in t:
+                atp.append("".join(t))
+    for _ in range(60000 if ctx.tier == "thorough" else 6000):
+        q = "".join(ctx.rng.choice(B) for _ in range(ctx.rng.randint(5, 10)))
+        if "@" in q:
+            atp.append(q)
+    atp = list(dict.fromkeys(atp))
+    aout = ctx.driver(["atok\t" + vy.cps(p) for p in atp])
+    nT = nF = nFdiff = 0
+    for p, o in zip(atp, aout):
+        try:
+            flag, pend = o.split(" pend=")
+            pend = "".join(chr(int(x)) for x in pend.split())
+        except ValueError:
+            ctx.disagree("atok", p, "atok=… pend=…", o)
+            continue
+        if pend != pending(p):
+            ctx.disagree("atok pending closers", p, pending(p), pend)
+            continue
+        base = vy.impl_lexparse(p)
+        same = all(vy.impl_lexparse(p + pend[:k]) == base for k in range(1, len(pend) + 1))
+        if flag == "atok=T":
+            nT += 1
+            ctx.count("oracle:truncation")
+            if not same:
+                k = next(k for k in range(1, len(pend) + 1) if vy.impl_lexparse(p + pend[:k]) != base)
+                ctx.violation("truncation", {"closed": p + pend[:k], "drop": k},
+                         f"atOK holds for {p!r} but the real parse changes with {pend[:k]!r} appended: {base}  vs  {vy.impl_lexparse(p + pend[:k])}")
+        else:
+            nF += 1
+            nFdiff += (not same)
+    ctx.bump("@ programs with atOK", nT)
+    ctx.bump("@ programs outside atOK", nF)
+    ctx.bump("@ programs outside atOK where the real parse does change", nFdiff)
     ctx.sample({"closed": "[1(λ+;)]", "drop": 3, "truncated": "[1(λ+", "parse": vy.impl_lexparse("[1(λ+")})
     progs = list(dict.fromkeys(progs))
     lines = ["tok\t" + vy.cps(p) for p in progs] + ["lexparse\t" + vy.cps(p) for p in progs]
